@@ -1725,6 +1725,176 @@ fn kind_exhaustive_efb(out: &mut Out) {
     *out.stats.entry("exhaustive:kind18-cases".to_string()).or_insert(0) += cnt;
 }
 
+// kind 19: EXHAUSTIVE small scope for the wavelet matrix — every sequence of length 1..=L over {0..3} (thorough: length
+// <= 6 over {0..4}), three backings, every position / range / value / k in a small box plus huge arguments
+fn wm_exh_case<B>(backing: usize, vals: &[usize], out: &mut Out, id: &str)
+where B: Access + Build + NumBits + Rank + Select + Serializable + PartialEq {
+    out.case(id);
+    out.data(vals);
+    let wm = match guard(|| WaveletMatrix::<B>::new(CompactVector::from_slice(vals).unwrap())) {
+        Some(Ok(w)) => { out.op(1010, &[backing], "K".into(), "WaveletMatrix::new (exhaustive)"); w }
+        Some(Err(_)) => { out.op(1010, &[backing], "E".into(), "WaveletMatrix::new (exhaustive)"); out.end(); return; }
+        None => { out.op(1010, &[backing], "P".into(), "WaveletMatrix::new (exhaustive)"); out.end(); return; }
+    };
+    let n = vals.len();
+    out.op(10, &[], r_num(|| wm.len()), "len");
+    out.op(83, &[], r_num(|| wm.alph_size()), "alph_size");
+    let mut pos: Vec<usize> = (0..=n + 1).collect();
+    pos.push(usize::MAX);
+    let mx = *vals.iter().max().unwrap();
+    let mut qv: Vec<usize> = (0..=mx + 2).collect();
+    qv.extend_from_slice(&[4, 7, 8, usize::MAX]);
+    qv.sort_unstable(); qv.dedup();
+    for &p in &pos { out.op(78, &[p], r_optnum(|| wm.access(p)), "access"); }
+    for &v in &qv {
+        for &p in &pos { out.op(84, &[p, v], r_optnum(|| wm.rank(p, v)), "rank"); }
+        for k in 0..=n + 1 { out.op(86, &[k, v], r_optnum(|| wm.select(k, v)), "select"); }
+        out.op(86, &[usize::MAX, v], r_optnum(|| wm.select(usize::MAX, v)), "select");
+    }
+    for a in 0..=n + 1 {
+        for b in 0..=n + 1 {
+            out.op(85, &[a, b, vals[0]], r_optnum(|| wm.rank_range(a..b, vals[0])), "rank_range");
+            for k in 0..=n { out.op(87, &[a, b, k], r_optnum(|| wm.quantile(a..b, k)), "quantile"); }
+        }
+    }
+    // intersect: all pairs of ranges from a small family, thresholds 0..=2
+    let fam: Vec<(usize, usize)> = vec![(0, n), (0, 1), (n / 2, n), (1, 1), (n, n + 1), (2, 1)];
+    for (i, &r1) in fam.iter().enumerate() {
+        for &r2 in &fam[i..] {
+            for k in 0..=2usize {
+                out.data(&[r1.0, r1.1, r2.0, r2.1]);
+                let rs = vec![r1.0..r1.1, r2.0..r2.1];
+                out.op(88, &[k], r_optnums(|| wm.intersect(&rs, k)), "intersect");
+            }
+        }
+    }
+    out.end();
+}
+fn kind_exhaustive_wm(out: &mut Out, tier: &str) {
+    let (maxl, sigma) = if tier == "thorough" { (5usize, 4usize) } else { (4usize, 3usize) };
+    let mut cnt = 0u64;
+    for l in 1..=maxl {
+        for code in 0..sigma.pow(l as u32) {
+            let mut vals = vec![];
+            let mut c = code;
+            for _ in 0..l { vals.push(c % sigma); c /= sigma; }
+            for backing in 0..3usize {
+                cnt += 1;
+                let id = format!("x19l{}s{}b{}", l, code, backing);
+                match backing {
+                    0 => wm_exh_case::<Rank9Sel>(0, &vals, out, &id),
+                    1 => wm_exh_case::<DArray>(1, &vals, out, &id),
+                    _ => wm_exh_case::<BitVector>(2, &vals, out, &id),
+                }
+            }
+        }
+    }
+    *out.stats.entry("exhaustive:kind19-cases".to_string()).or_insert(0) += cnt;
+}
+
+// kind 21: EXHAUSTIVE small scope for BitVector histories — every sequence of <= D operations from a boundary operand set,
+// from several start vectors, followed by a full read-back
+fn kind_exhaustive_bvhist(out: &mut Out, tier: &str) {
+    let depth = if tier == "thorough" { 3 } else { 2 };
+    // operation menu: (code, args)
+    let mut menu: Vec<(u32, Vec<usize>)> = vec![(3, vec![0]), (3, vec![1])];
+    for &len in &[0usize, 1, 63, 64, 65] { for &bits in &[0usize, usize::MAX, 0b101] { menu.push((4, vec![bits, len])); } }
+    for &pos in &[0usize, 63, 64, 69, 70, usize::MAX] { menu.push((5, vec![pos, 1])); menu.push((5, vec![pos, 0])); }
+    for &pos in &[0usize, 60, 64, usize::MAX] { for &len in &[1usize, 8, 64, 65] { for &bits in &[0usize, usize::MAX] { menu.push((6, vec![pos, bits, len])); } } }
+    let starts: Vec<(bool, usize)> = vec![(false, 0), (true, 60), (false, 64), (true, 70), (false, 128)];
+    let mut cnt = 0u64;
+    let m = menu.len();
+    for (si, &(sb, sl)) in starts.iter().enumerate() {
+        for d in 0..=depth {
+            for code in 0..m.pow(d as u32) {
+                cnt += 1;
+                out.case(&format!("x21s{}d{}c{}", si, d, code));
+                out.op(1001, &[], "K".into(), "BitVector::new");
+                let mut bv = BitVector::from_bit(sb, sl);
+                out.op(1, &[sb as usize, sl], "K".into(), "from_bit");
+                let mut c = code;
+                for _ in 0..d {
+                    let (op, ref a) = menu[c % m];
+                    c /= m;
+                    match op {
+                        3 => { bv.push_bit(a[0] != 0); out.op(3, a, "K".into(), "push_bit"); }
+                        4 => { let r = r_unit(|| bv.push_bits(a[0], a[1])); out.op(4, a, r, "push_bits"); }
+                        5 => { let r = r_unit(|| bv.set_bit(a[0], a[1] != 0)); out.op(5, a, r, "set_bit"); }
+                        _ => { let r = r_unit(|| bv.set_bits(a[0], a[1], a[2])); out.op(6, a, r, "set_bits"); }
+                    }
+                }
+                let n = bv.len();
+                out.op(10, &[], r_num(|| bv.len()), "len");
+                out.op(22, &[], r_num(|| bv.num_ones()), "num_ones");
+                let v: Vec<usize> = bv.iter().map(|b| b as usize).collect();
+                out.op(24, &[], r_nums(&v), "iter");
+                let rebuilt = BitVector::from_bits(bv.iter());
+                out.op(25, &[], format!("b:{}", (rebuilt == bv) as u8), "eq rebuilt");
+                for &p in &[0usize, 59, 63, 64, n.wrapping_sub(1), n, usize::MAX] {
+                    out.op(12, &[p, 8], r_optnum(|| bv.get_bits(p, 8)), "get_bits");
+                    out.op(13, &[p], r_optnum(|| bv.get_word64(p)), "get_word64");
+                    out.op(14, &[p], r_optnum(|| bv.rank1(p)), "rank1");
+                    out.op(19, &[p], r_optnum(|| bv.predecessor0(p)), "predecessor0");
+                    out.op(20, &[p], r_optnum(|| bv.successor1(p)), "successor1");
+                }
+                out.op(99, &[], {
+                    let mut bytes = vec![]; let _ = bv.serialize_into(&mut bytes);
+                    let mut s = String::from("x:"); for b in &bytes { write!(s, "{:02x}", b).unwrap(); } s }, "serialize_into bytes");
+                out.end();
+            }
+        }
+    }
+    *out.stats.entry("exhaustive:kind21-cases".to_string()).or_insert(0) += cnt;
+}
+
+// kind 22: EXHAUSTIVE small scope for CompactVector histories — widths {1, 3, 64}, every sequence of <= D operations from a
+// boundary operand set, followed by a full read-back
+fn kind_exhaustive_cvhist(out: &mut Out, tier: &str) {
+    let depth = if tier == "thorough" { 4 } else { 3 };
+    let mut cnt = 0u64;
+    for &w in &[1usize, 3, 64] {
+        let top = if w == 64 { usize::MAX } else { (1usize << w) - 1 };
+        let over = if w == 64 { usize::MAX } else { 1usize << w };
+        let menu: Vec<(u32, Vec<usize>)> = vec![
+            (74, vec![0]), (74, vec![top]), (74, vec![over]),
+            (75, vec![0, top]), (75, vec![1, 0]), (75, vec![0, over]), (75, vec![usize::MAX, 0]), (75, vec![2, 1]),
+            (76, vec![top, 0]), (76, vec![1, over, 1]),
+        ];
+        let m = menu.len();
+        for d in 0..=depth {
+            for code in 0..m.pow(d as u32) {
+                cnt += 1;
+                out.case(&format!("x22w{}d{}c{}", w, d, code));
+                out.op(1006, &[], "K".into(), "CompactVector::default");
+                let mut cv = CompactVector::new(w).unwrap();
+                out.op(70, &[w], "K".into(), "new");
+                let mut c = code;
+                for _ in 0..d {
+                    let (op, ref a) = menu[c % m];
+                    c /= m;
+                    match op {
+                        74 => { let r = r_unit(|| cv.push_int(a[0])); out.op(74, a, r, "push_int"); }
+                        75 => { let r = r_unit(|| cv.set_int(a[0], a[1])); out.op(75, a, r, "set_int"); }
+                        _ => { out.data(a); let r = r_unit(|| cv.extend(a.iter().cloned())); out.op(76, &[], r, "extend"); }
+                    }
+                }
+                let n = cv.len();
+                out.op(10, &[], r_num(|| cv.len()), "len");
+                for &p in &[0usize, 1, n.wrapping_sub(1), n, usize::MAX, (usize::MAX / w.max(1)).wrapping_add(1)] {
+                    out.op(78, &[p], r_optnum(|| cv.get_int(p)), "get_int");
+                }
+                let all: Vec<usize> = cv.iter().collect();
+                out.op(79, &[], r_nums(&all), "iter");
+                let mut other = CompactVector::new(w).unwrap();
+                other.extend(all.iter().cloned()).unwrap();
+                out.op(25, &[], format!("b:{}", (other == cv) as u8), "eq rebuilt");
+                out.end();
+            }
+        }
+    }
+    *out.stats.entry("exhaustive:kind22-cases".to_string()).or_insert(0) += cnt;
+}
+
 // kind 14: primitive / Option / Vec wrappers (C08, C13): checked against a reference encoder written here
 // (little-endian fixed width; Option = 1 tag byte + payload; Vec = 8-byte length + elements)
 trait RefEnc { fn enc(&self, out: &mut Vec<u8>); }
@@ -1855,10 +2025,17 @@ fn main() {
     let intr = cfg!(feature = "intrinsics");
     writeln!(out.buf, "CFG {} {}", dbg as u8, intr as u8).unwrap();
     for &k in &kinds {
-        if k >= 15 && k <= 18 {
+        if k >= 15 && k <= 22 {
             // exhaustive enumerations: run once (by the first shard of every build: seed a multiple of 100), ignore `cases`
             if seed % 100 == 0 {
-                if k == 18 { kind_exhaustive_efb(&mut out) } else { kind_exhaustive_bits(k, &mut out, tier) }
+                match k {
+                    18 => kind_exhaustive_efb(&mut out),
+                    19 => kind_exhaustive_wm(&mut out, tier),
+                    21 => kind_exhaustive_bvhist(&mut out, tier),
+                    22 => kind_exhaustive_cvhist(&mut out, tier),
+                    20 => {}
+                    _ => kind_exhaustive_bits(k, &mut out, tier),
+                }
             }
             continue;
         }
